@@ -29,7 +29,20 @@ Deps ==
      IN bad # {} => Say("VERDICT", Ev.t, bad)
   /\ l' = l + 1 /\ UNCHANGED <<vars, scn>>
 
-Normal == Begin \/ Deps
+\* beyond C14: the Mermaid generator, judged against the same call relation (the project application calls nobody)
+Mermaid ==
+  /\ Is("mermaid")
+  /\ LET cs == Pairs(scn.calls)
+         want == IF Ev.kind = "full" THEN MermaidFull(cs) ELSE MermaidOf(cs, Ev.kind)
+         got == Pairs(Ev.arrows)
+         bad == IF ~Ev.ok THEN {"MermaidNoDiagram"}
+                ELSE (IF got \subseteq cs THEN {} ELSE {"MermaidArrowWithoutCall"})
+                     \cup (IF want \subseteq got THEN {} ELSE {"MermaidCallNotDrawn"})
+                     \cup (IF got \subseteq want THEN {} ELSE {"MermaidArrowOfUnreachedApplication"})
+     IN bad # {} => Say("EXTRA", Ev.t, [kind |-> IF Ev.kind = "full" THEN "full" ELSE "one-application", bad |-> bad])
+  /\ l' = l + 1 /\ UNCHANGED <<vars, scn>>
+
+Normal == Begin \/ Deps \/ Mermaid
 \* panic, fatal (stack exhaustion on a pass-through cycle), timeout: no action
 Skip == /\ l <= Len(Trace) /\ ~ENABLED Normal /\ Say("REJECT", Ev.t, Ev.e) /\ l' = l + 1 /\ UNCHANGED <<vars, scn>>
 TraceInit == /\ l = 1 /\ scn = <<>> /\ calls = {} /\ listed = {} /\ excl = {} /\ pass = {} /\ final = {}
